@@ -78,7 +78,11 @@ theorem liveAt_of_mem (side : VMap) (hn : NodupP side) (e : PV) (he : e ∈ side
 theorem stepOK_of_inv (D U W : List Str) (lo idx : Nat) (side ch : VMap) (hinv : Inv D U W lo side)
     (hcl : CleanStepP D U W ch) (hlo : lo < idx) (hst : ∀ c ∈ ch, c.index = idx) :
     StepOK idx side ch := by
-  refine ⟨hinv.nodup, hcl.nodup, hinv.nonempty, hcl.nonempty, ?_, hst, ?_, ?_, ?_, ?_, ?_⟩
+  refine ⟨hinv.nodup, hcl.nodup, hinv.nonempty, hcl.nonempty, ?_, ?_, ?_, ?_, ?_, ?_, ?_⟩
+  · intro c hc e he
+    have h1 := hst c hc
+    have h2 := hinv.idx e (get_some side _ e he).1
+    omega
   · intro e he; have := hinv.idx e he; omega
   · intro c hc c' hc' hdel
     rcases hcl.c c hc c' hc' hdel with h | h
